@@ -152,6 +152,23 @@ def cases(desc):
                         for j, c in enumerate(kids)]},
                     {"min": 0, "max": 1, "children": [{"name": "Opt", "rels": []}]}]}, "ctcs": []}
                 yield "wide-group", spec3
+    # very wide [n..n] / [n..*] groups (beyond CPython's small-int cache)
+    for wi, k in enumerate((257, 300, 1000)):
+        if (wi + 5) % n == i:
+            for mn, mx in ((k, k), (k, -1), (1, 1), (k - 1, k)):
+                kids = [{"name": f"G{j}", "rels": [{"min": 1, "max": 1, "children": [{"name": f"G{j}m", "rels": []}]}] if j == 3 else []}
+                        for j in range(k)]
+                yield "very-wide-group", {"root": {"name": "W", "rels": [{"min": 1, "max": 1, "children": [{"name": "First", "rels": []}]},
+                                                                         {"min": mn, "max": mx, "children": kids}]}, "ctcs": []}
+    # chains deeper than a default Python stack, alternating optional/mandatory links
+    for wi, depth in enumerate((600, 1500, 3000)):
+        if (wi + 9) % n == i:
+            root = cur = {"name": "V0", "rels": []}
+            for j in range(1, depth):
+                nxt = {"name": f"V{j}", "rels": []}
+                cur["rels"].append({"min": j % 2, "max": 1, "children": [nxt]})
+                cur = nxt
+            yield "very-deep-chain", {"root": root, "ctcs": []}
     # deep chains (depth thresholds) with mixed mandatory/optional links and a group at the bottom
     for depth in (12, 20, 40):
         if depth % n != i:
@@ -191,9 +208,11 @@ def reference(spec, acc):
 def call_under_default_limit(spec, fn):
     """Library calls run under the interpreter's default recursion limit whenever the tree is shallow enough
     for a recursive traversal to fit into it."""
-    from .. import refdefs
-    shallow = refdefs.depth(spec) < 150
-    with env.library_recursion_limit(shallow):
+    try:
+        with env.library_recursion_limit(True):
+            return fn()
+    except RecursionError:
+        # too deep for a user's default stack: a refusal, not a result; judge the call under the harness's limit
         return fn()
 
 
@@ -219,6 +238,24 @@ def run_case(acc, judge, prop, source, spec, op_factory=None, case_no=0):
         acc.fail(cls, "model-unchanged", prop, [], "mutated", S.first_diff(before, after), payload)
     if len(acc.samples) < 4 and source.startswith("shape+"):
         acc.sample({"source": source, "spec": spec})
+    # history: a result handed out by an operation object stays what it was when the same object analyses
+    # another model afterwards
+    if op is not None and case_no % 7 == 3:
+        from .c19 import val
+        try:
+            r1 = op.execute(model).get_result()
+            d1 = S.digest(val(r1))
+            other = S.build({"root": {"name": "Other9", "rels": [{"min": 0, "max": 1, "children": [{"name": "OtherLeaf9", "rels": []}]}]},
+                             "ctcs": []})
+            op.execute(other).get_result()
+            if S.digest(val(r1)) != d1:
+                acc.fail("history:earlier-result", "earlier-result-unchanged", prop, [], "earlier-result-overwritten",
+                         "the object returned for this model changed when the same operation object analysed another model",
+                         payload)
+            else:
+                acc.held("history:earlier-result", None)
+        except Exception as e:  # noqa: BLE001
+            acc.fail("history:earlier-result", "no-exception", prop, [], f"raises:{type(e).__name__}", str(e)[:200], payload)
     # history: the SAME model object is edited in place through public attributes/methods and analysed again
     # with the SAME operation object (and the first result must not leak into the second)
     if op is not None and case_no % 5 == 0 and len(S.feature_names(spec)) >= 2:
